@@ -221,6 +221,8 @@ class UdpInverterProtocol(InverterProtocol, asyncio.DatagramProtocol):
         else:
             logger.debug("Sending: %s", self.command)
         self._transport.sendto(payload)
+        if self._timer:
+            self._timer.cancel()
         self._timer = asyncio.get_running_loop().call_later(self.timeout, self._timeout_mechanism)
 
     def _timeout_mechanism(self) -> None:
@@ -379,6 +381,8 @@ class TcpInverterProtocol(InverterProtocol, asyncio.Protocol):
         else:
             logger.debug("Sending: %s", self.command)
         self._transport.write(payload)
+        if self._timer:
+            self._timer.cancel()
         self._timer = asyncio.get_running_loop().call_later(self.timeout, self._timeout_mechanism)
 
     def _timeout_mechanism(self) -> None:
